@@ -149,6 +149,8 @@ def m_box_new(eng, ctx, f, path, args, dty):
     if z3.is_expr(v):
         sort = "bool" if z3.is_bool(v) else ("ptr" if z3.is_int(v) else v.size())
         oid = ctx.alloc("Box", {(): (sort, v)})
+    elif isinstance(v, (FnItem, Opaque)) or (isinstance(v, Agg) and not v.f):
+        oid = ctx.alloc("Box", {(): (64, bv(0))})      # zero-sized / opaque payload: only the identity of the box matters
     else:
         raise Unsupported(f"Box::new of {v}")
     return Ptr(("obj", oid))
